@@ -289,3 +289,48 @@ def fire_log(I):
 
 def fired_named(I, name):
     return [e for e in fire_log(I) if isinstance(e, VCons) and e.tag == name]
+
+
+def uf(name, ret=Str, note=None, argkinds=None):
+    """summary: uninterpreted (pure, total, deterministic) function of its positional arguments"""
+    def f(I, recv, args, kw):
+        I.st.trusted_used.add(note or ('%s: pure deterministic function of its arguments (uninterpreted)' % name))
+        terms = []
+        for a in args:
+            a = lib_unopt(I, a)
+            if isinstance(a, (VInt, VStr, VBool, VReal, VRef, VAny)):
+                terms.append(a.t)
+            else:
+                raise Unsupported('uf %s applied to %r' % (name, a))
+        f_ = core.fn('%s_%d' % (name, len(terms)), *([t.sort() for t in terms] + ret.sorts()))
+        t = f_(*terms) if terms else core.fn(name + '_0', *ret.sorts())()
+        return ret.wrap([t])
+    return f
+
+
+def lib_unopt(I, v):
+    from .lib import unopt
+    return unopt(I, v)
+
+
+def const_summary(value_fn):
+    def f(I, recv, args, kw):
+        return value_fn(I)
+    return f
+
+
+def noop(I, recv, args, kw):
+    return NONE
+
+
+def is_generator_function(node):
+    import ast as _ast
+    stack = list(node.body) if hasattr(node, 'body') and isinstance(node.body, list) else []
+    while stack:
+        n = stack.pop()
+        if isinstance(n, (_ast.Yield, _ast.YieldFrom)):
+            return True
+        if isinstance(n, (_ast.FunctionDef, _ast.AsyncFunctionDef, _ast.Lambda, _ast.ClassDef)):
+            continue
+        stack.extend(_ast.iter_child_nodes(n))
+    return False
